@@ -66,3 +66,43 @@ C("_Tree._set", cls=TREE, params={"key": "K", "value": ["none", "V"], "ifunset":
   requires={}, returns=SET_RET, props=["C08"], **RC_WRITE)
 C("_Tree._del", cls=TREE, params={"key": "K"},
   requires={}, returns=DEL_RET, props=["C08"], **RC_WRITE)
+
+# ---- C13 / C09: the tree entry points convert before they descend ---------
+# (typestate view: child calls are havocked; the clause is about the
+# arguments the real code passes down and about unconvertible arguments)
+CONVERTED_KEY = {"key_converted": "key_ok(key) and arg0 == to_key(key)"}
+CONVERTED_KV = {"key_converted": "key_ok(key) and arg0 == to_key(key)",
+                "value_converted": "value_ok(value) and arg1 == to_value(value)"}
+LOOKUP_HAVOC = {"_findbucket": {"returns": ["ref"], "rc_neutral": True},
+                "get": {"returns": ["V", "none"], "rc_neutral": True},
+                "__getitem__": {"returns": ["V"], "rc_neutral": True},
+                "has_key": {"returns": ["bool"], "rc_neutral": True},
+                "_search": {"returns": ["int"], "rc_neutral": True, "raises": False}}
+
+C("Tree.insert", cls="Tree", params={"key": "any", "value": "any"}, returns="bool",
+  ghost={"havoc_calls": {"_set": {"returns": SET_RET}}, "at_call": {"_set": CONVERTED_KV}, "no_frame": True},
+  ensures={}, raises={"*": {}, "TypeError": {}}, props=["C13", "C09"])
+C("Tree.get", cls="Tree", params={"key": "any", "default": ["none", "V"]}, returns=["V", "none"],
+  ghost={"havoc_calls": LOOKUP_HAVOC, "at_call": {"_findbucket": CONVERTED_KEY}, "no_frame": True},
+  ensures={"absent_if_unconvertible": "implies(not key_ok(key), result is default)", "no_read_dependency": "rc_unchanged()"},
+  raises={"*": {"only_from_below": "key_ok(key)"}}, props=["C13", "C09", "C08"])
+C("Tree.__getitem__", cls="Tree", params={"key": "any"}, returns="V",
+  ghost={"havoc_calls": LOOKUP_HAVOC, "at_call": {"_findbucket": CONVERTED_KEY}, "no_frame": True},
+  ensures={"found_only_if_convertible": "key_ok(key)", "no_read_dependency": "rc_unchanged()"},
+  raises={"KeyError": {}, "*": {"only_from_below": "key_ok(key)"}}, props=["C13", "C09", "C08"])
+C("_Tree.has_key", cls=TREE, params={"key": "any"}, returns="bool",
+  ghost={"havoc_calls": LOOKUP_HAVOC, "at_call": {"_search": CONVERTED_KEY, "has_key": CONVERTED_KEY}, "no_frame": True},
+  ensures={"absent_if_unconvertible": "implies(not key_ok(key), not result)", "no_read_dependency": "rc_unchanged()"},
+  raises={"*": {"only_from_below": "key_ok(key)"}}, props=["C13", "C09", "C08"])
+C("_Tree.__setitem__", cls=TREE, params={"key": "any", "value": "any"}, returns="none",
+  ghost={"havoc_calls": {"_set": {"returns": SET_RET}}, "at_call": {"_set": CONVERTED_KV}, "no_frame": True},
+  ensures={}, raises={"*": {}, "TypeError": {}}, props=["C13", "C09"])
+C("_Tree.__delitem__", cls=TREE, params={"key": "any"}, returns="none",
+  ghost={"havoc_calls": {"_del": {"returns": DEL_RET}}, "at_call": {"_del": CONVERTED_KEY}, "no_frame": True},
+  ensures={}, raises={"*": {}, "TypeError": {}}, props=["C13", "C09"])
+C("_Tree.setdefault", cls=TREE, params={"key": "any", "value": "any"}, returns=["V", "none"],
+  ghost={"havoc_calls": {"_set": {"returns": SET_RET}}, "at_call": {"_set": CONVERTED_KV}, "no_frame": True},
+  ensures={}, raises={"*": {}, "TypeError": {}}, props=["C13", "C09"])
+C("TreeSet.add", cls="TreeSet", params={"key": "any"}, returns=["bool", "int", "none"],
+  ghost={"havoc_calls": {"_set": {"returns": SET_RET}}, "at_call": {"_set": CONVERTED_KEY}, "no_frame": True},
+  ensures={}, raises={"*": {}, "TypeError": {}}, props=["C13", "C09"])
